@@ -378,8 +378,9 @@ def gen_cases(rng, n):
 
 
 # ------------------------------------------------------------------ implementation
-def _mk_pool(log, spec, touch=None):
-    """recording pool: logs every demand write; `touch` (optional) is called on every attribute read"""
+def _mk_pool(log, spec, touch=None, changes_only=False):
+    """recording pool: logs every demand write (with changes_only: only writes of a different value);
+    `touch` (optional) is called on every attribute access"""
     from cobald.interfaces import Pool
 
     def read(name):
@@ -407,7 +408,10 @@ def _mk_pool(log, spec, touch=None):
 
         @demand.setter
         def demand(self, v):
-            log.append(["w", v])
+            if touch is not None:
+                touch()
+            if not (changes_only and v == self._d):
+                log.append(["w", v])
             self._d = v
 
     return RecPool(*[num(x) for x in spec])
